@@ -53,7 +53,9 @@ def required(tier):
            'reset', 'read:unset-refused', 'read:set', 'mutate:set-refused',
            'mutate:unset-refused', 'overlay:file+kwargs-nested',
            'route:constructor:unset->set', 'route:constructor:set->refused',
-           'route:model_validate:unset->set', 'route:model_validate:set->refused']
+           'route:model_validate:unset->set', 'route:model_validate:set->refused',
+           'threads:other-thread-sees-and-cannot-replace-the-active-configuration',
+           'threads:configuration-loaded-in-another-thread-is-active-here']
     return {'classes': cl, 'evaluations': 5000}
 
 
@@ -313,6 +315,123 @@ class Machine:
                 m.detail['kind'] = kind
             raise
 
+    def step_questionable_load(self):
+        """A load whose validity the property does not settle (the weather directory names an
+        existing regular file; a path is given with a trailing separator ...).  Whatever the
+        library decides: an accepted load makes exactly that configuration active, a refused
+        one changes nothing and - if none was active - leaves none."""
+        from AEIC.config import Config
+
+        rng = self.rng
+        o = self.gen_overlay(allow_paths=False)
+        what = rng.choice(['weather-dir-is-a-regular-file', 'weather-dir-is-a-regular-file',
+                           'weather-off-and-dir-missing'])
+        if what == 'weather-dir-is-a-regular-file':
+            f = self.hdir / 'not_a_directory'
+            f.write_text('x')
+            o.setdefault('weather', {})['weather_data_dir'] = str(f)
+            o['weather']['use_weather'] = True
+        else:
+            o.setdefault('weather', {})['weather_data_dir'] = 'no_such_weather_dir'
+            o['weather']['use_weather'] = False
+        kwargs = copy.deepcopy(o)
+        kwargs['path'] = list(self.search)
+        kwargs['data_path_overrides'] = self.search[:2]
+        self.log.append(('questionable-load', what, o))
+        was = self.state
+        try:
+            Config.load(**kwargs)
+            raised = None
+        except Exception as e:  # noqa: BLE001
+            raised = e
+        if raised is None:
+            if was is not None:
+                self.fail('loading while a configuration is active was accepted')
+            # accepted: it is now the active configuration; only its existence and the
+            # unambiguous values are observed
+            try:
+                cfg = Config.get()
+            except ValueError:
+                self.fail('a load returned normally but no configuration is active', what=what)
+            if cfg.weather.use_weather != o['weather']['use_weather']:
+                self.fail('effective configuration value differs from defaults<-file<-kwargs',
+                          key='weather.use_weather', what=what)
+            self.rec.cls(f'questionable-load:{what}:accepted')
+            Config.reset()
+            self.log.append(('reset',))
+            self.state = None
+            self.last_failed = False
+            self.observe('after reset following a questionable load')
+            return
+        self.rec.cls(f'questionable-load:{what}:refused:{type(raised).__name__}')
+        self.last_failed = self.state is None
+        try:
+            self.observe(f'after refused questionable load ({what})')
+        except Exception as m:
+            if getattr(m, 'mechanism', '') == 'a configuration is active although none ' \
+                                              'should be':
+                m.mechanism = 'a failed load left a configuration active'
+                m.detail['kind'] = what
+            raise
+
+    def step_threads(self):
+        """The one active configuration is the same for every thread of the process."""
+        import threading
+
+        from AEIC.config import Config, config
+
+        out = {}
+
+        def other():
+            try:
+                out['get'] = Config.get()
+            except ValueError:
+                out['get'] = None
+            except Exception as e:  # noqa: BLE001
+                out['get'] = e
+            try:
+                out['read'] = config.emissions.co2_enabled
+            except ValueError:
+                out['read'] = 'refused'
+            try:
+                kw = {'path': list(self.search), 'data_path_overrides': self.search[:2]}
+                Config.load(**kw)
+                out['load'] = 'accepted'
+            except Exception as e:  # noqa: BLE001
+                out['load'] = f'refused:{type(e).__name__}'
+        t = threading.Thread(target=other)
+        t.start()
+        t.join()
+        self.log.append(('other-thread', {k: str(v)[:40] for k, v in out.items()}))
+        self.rec.ev()
+        if self.state is not None:
+            main_cfg = Config.get()
+            if out['get'] is not main_cfg:
+                self.fail('another thread does not see the active configuration',
+                          seen=str(out['get'])[:80])
+            if out['load'] == 'accepted':
+                self.fail('loading while a configuration is active was accepted',
+                          where='in another thread')
+            if Config.get() is not main_cfg:
+                self.fail('a load attempted in another thread replaced the active configuration')
+            self.rec.cls('threads:other-thread-sees-and-cannot-replace-the-active-configuration')
+        else:
+            if out['get'] is not None or out['read'] != 'refused':
+                self.fail('a configuration is active although none should be',
+                          where='seen from another thread')
+            if out['load'] != 'accepted':
+                self.fail('a valid load was refused', where='in another thread',
+                          error=out['load'])
+            # the configuration loaded by the other thread is THE active configuration
+            try:
+                Config.get()
+            except ValueError:
+                self.fail('a configuration loaded in another thread is not active in this one')
+            self.state = ref_merge(self.defaults, {})
+            self.last_failed = False
+            self.rec.cls('threads:configuration-loaded-in-another-thread-is-active-here')
+        self.observe('after other-thread step')
+
     def step_reset(self):
         from AEIC.config import Config
 
@@ -395,6 +514,10 @@ def run_shard(spec, rec):
                     r = rng.random()
                     if r < 0.27:
                         m.step_valid_load()
+                    elif r < 0.31:
+                        m.step_questionable_load()
+                    elif r < 0.35:
+                        m.step_threads()
                     elif r < 0.55:
                         m.step_invalid_load()
                     elif r < 0.67:
